@@ -586,6 +586,13 @@ class TVHarness(forksym.Harness):
             self.unmodelled[why] = self.unmodelled.get(why, 0) + 1
             raise forksym.OutsideClaim("unmodelled: " + why)
         info = {"a": a, "b": b, "tabs": tabs, "kf": list(pdshim.PATH_KF)}
+        for sr in (a, b):
+            if sr.exc is not None and "is not keyed by" in str(sr.exc):
+                # cdata's documented precondition (records keyed by record_keys): the Pandas/Polars executors test it and refuse, SQL cannot
+                raise forksym.OutsideClaim("record transform on a table that is not keyed by its record keys")
+            if sr.exc is not None and "incompatible column types" in str(sr.exc):
+                # the executor's own type check refuses an ill-typed program (e.g. a string key joined to an integer key)
+                raise forksym.OutsideClaim("ill-typed program refused by the executor's column type check")
         if (a.exc is None) != (b.exc is None):
             if j.get("b_may_raise") and b.exc is not None:
                 return True, info
